@@ -738,7 +738,9 @@ impl Adapter<'static> for SimAdapter {
             }
         };
 
-        type Extras = Vec<(String, CandidateValue<FieldValue>)>;
+        // (path to a nested destination: edge name + parameters, or None for the destination itself;
+        //  property; per-context candidate)
+        type Extras = Vec<(Option<(String, BTreeMap<String, FieldValue>)>, String, CandidateValue<FieldValue>)>;
         let mut input: Box<dyn Iterator<Item = (DataContext<V>, Extras)>> =
             Box::new(contexts.map(|c| (c, Vec::new())));
         if use_dyn {
@@ -782,9 +784,64 @@ impl Adapter<'static> for SimAdapter {
                         let mut ex = side.borrow_mut().pop_front().unwrap_or_else(|| {
                             std::panic::panic_any(HarnessBug("side queue underflow".into()))
                         });
-                        ex.push((pname.clone(), cand));
+                        ex.push((None, pname.clone(), cand));
                         (c, ex)
                     }));
+                }
+            }
+            // Dynamic hints one level down: through a mandatory edge of the destination, via
+            // EdgeInfo::destination().
+            if use_mand && depth >= 1 {
+                let target = tidx.and_then(|t| world.schema.edge(t, edge_name).map(|e| e.target));
+                let mut edge_names = BTreeSet::new();
+                if let Some(tt) = target {
+                    for st in world.schema.subtypes_of(tt) {
+                        for e2 in &world.schema.types[st].edges {
+                            edge_names.insert((e2.name.clone(), e2.target));
+                        }
+                    }
+                }
+                for (e2name, e2target) in edge_names {
+                    let infos: Vec<_> = dest.mandatory_edges_with_name(&e2name).collect();
+                    for ei in infos {
+                        let nested_vid = vid_num(ei.destination().vid());
+                        let mut props2 = BTreeSet::new();
+                        for st in world.schema.subtypes_of(e2target) {
+                            for p in &world.schema.types[st].props {
+                                props2.insert(p.name.clone());
+                            }
+                        }
+                        for p2 in props2 {
+                            if shim_active("ignore_dynamic_hint_for_ge_tag_filters")
+                                && self.sim.borrow().ge_tag_props.contains(&(nested_vid, p2.clone()))
+                            {
+                                continue;
+                            }
+                            if let Some(dynv) = ei.destination().dynamically_required_property(&p2) {
+                                {
+                                    let mut s = self.sim.borrow_mut();
+                                    s.fires.f5_dynamic_consulted += 1;
+                                    s.fires.f5_nested_consulted += 1;
+                                }
+                                let side: Rc<RefCell<VecDeque<Extras>>> = Rc::new(RefCell::new(VecDeque::new()));
+                                let side_in = side.clone();
+                                let ctx_stream: ContextIterator<'static, V> = Box::new(input.map(move |(c, ex)| {
+                                    side_in.borrow_mut().push_back(ex);
+                                    c
+                                }));
+                                let resolved = dynv.resolve(self, ctx_stream);
+                                let path = Some((e2name.clone(), params_map(ei.parameters())));
+                                let pname = p2.clone();
+                                input = Box::new(resolved.map(move |(c, cand)| {
+                                    let mut ex = side.borrow_mut().pop_front().unwrap_or_else(|| {
+                                        std::panic::panic_any(HarnessBug("side queue underflow".into()))
+                                    });
+                                    ex.push((path.clone(), pname.clone(), cand));
+                                    (c, ex)
+                                }));
+                            }
+                        }
+                    }
                 }
             }
         }
@@ -813,12 +870,24 @@ impl Adapter<'static> for SimAdapter {
                     }
                     if !extras.is_empty() {
                         ns.retain(|u| {
-                            for (p, cand) in &extras {
-                                let cty = world.concrete_type(*u);
-                                if world.schema.prop(cty, p).is_none() {
-                                    continue;
-                                }
-                                if !cand_contains(cand, &world.prop_fv(*u, p)) {
+                            for (path, p, cand) in &extras {
+                                let ok = match path {
+                                    None => {
+                                        let cty = world.concrete_type(*u);
+                                        world.schema.prop(cty, p).is_none()
+                                            || cand_contains(cand, &world.prop_fv(*u, p))
+                                    }
+                                    Some((e2, params2)) => {
+                                        // some neighbor along the mandatory edge must be able to
+                                        // satisfy the candidate
+                                        world.neighbors(*u, e2, params2).iter().any(|w| {
+                                            let wty = world.concrete_type(*w);
+                                            world.schema.prop(wty, p).is_none()
+                                                || cand_contains(cand, &world.prop_fv(*w, p))
+                                        })
+                                    }
+                                };
+                                if !ok {
                                     sim.borrow_mut().fires.f5_dynamic_pruned += 1;
                                     return false;
                                 }
